@@ -279,3 +279,31 @@ pub unsafe fn call_slot0_arg(vtbl_word: usize, cont: *const std::ffi::c_void, a:
     let f: extern "C" fn(*const std::ffi::c_void, u64) -> u64 = std::mem::transmute(*(vtbl_word as *const usize));
     f(cont, a)
 }
+
+/// A text sink that rejects a WHOLE piece when it does not fit (and keeps what fitted before): where the pieces of a formatted
+/// value begin and end, and at which piece formatting stops, is observable through it.
+pub struct LimitedSink {
+    pub buf: String,
+    pub cap: usize,
+    pub pieces: u32,
+}
+
+impl LimitedSink {
+    pub fn new(cap: usize) -> Self {
+        LimitedSink { buf: String::new(), cap, pieces: 0 }
+    }
+    pub fn outcome(&self, r: std::fmt::Result) -> u64 {
+        digest(&(self.buf.as_str(), self.pieces, r.is_ok()))
+    }
+}
+
+impl std::fmt::Write for LimitedSink {
+    fn write_str(&mut self, s: &str) -> std::fmt::Result {
+        if self.buf.len() + s.len() > self.cap {
+            return Err(std::fmt::Error);
+        }
+        self.pieces += 1;
+        self.buf.push_str(s);
+        Ok(())
+    }
+}
